@@ -248,6 +248,12 @@ def _bandwidth_one(db, chk, m, TR, rule, where, r):
     DUR, TS = T.col(TR, "dur"), T.col(TR, "ts")
     dur1 = T.ite(T.cmp("==", DUR, T.C(0)), T.C(1), DUR)
     exp_ts = sorted([TS, T.add(TS, dur1)], key=repr)
+    hs, tl = leaves(CS[3]), tsl
+    if okord and len(hs) == len(tl) == 2 and sorted(tl, key=repr) == exp_ts and parts == sorted([BW, T.neg(BW)], key=repr):
+        # the pieces of both columns come in the same order (the stacked start rows and end rows): which height sits at which instant
+        pairs = sorted(zip(hs, tl), key=repr)
+        chk.ob(rule, "the +bandwidth step sits at the copy's start and the -bandwidth step at its end", pairs == sorted([(BW, TS), (T.neg(BW), T.add(TS, dur1))], key=repr), where,
+               found=[(T.show(h_)[:40], T.show(t_)[:60]) for h_, t_ in pairs], accepted=["(+bw, ts)", "(-bw, ts + dur)"], why="with the signs exchanged the series is the negative of the bandwidth in use")
     chk.ob(rule, "sweep sorted by ts ascending; start rows at ts, end rows at ts + dur with a zero-length copy counted as one time unit (dur 0 -> 1 BEFORE ts + dur is formed)",
            okord and sorted(tsl, key=repr) == exp_ts, where, found=[T.show(x)[:140] for x in tsl], accepted=[T.show(x)[:140] for x in exp_ts],
            why="with the raw dur a zero-length copy contributes +bw and -bw at one instant and never shows")
@@ -261,6 +267,7 @@ def _bandwidth_one(db, chk, m, TR, rule, where, r):
                why="grouped by symbol id, overlapping copies of one type with different detailed names are not added up; translating the ids afterwards only relabels the rows")
     # rows: device & MEMORY kernels; name = memory kernel type of the decoded name
     cparts = [p for e in ev if e["kind"] == "concat" for k, p in e["parts"] if isinstance(p, tuple) and len(p) == 3 and p[0] == TR]
+    cparts += [e["src_ctx"] for e in ev if e["kind"] == "melt" and isinstance(e.get("src_ctx"), tuple) and len(e["src_ctx"]) == 3 and e["src_ctx"][0] == TR]          # (start / end rows stacked by melt)
     kt = KT.kernel_type_term(db, ("getitem", T.P("SYMTABLE"), T.col(TR, "name")))
     okrows = bool(cparts)
     for p in cparts:
@@ -268,7 +275,7 @@ def _bandwidth_one(db, chk, m, TR, rule, where, r):
         rest = [c for c in conj if c != T.cmp("==", kt, T.C("MEMORY"))]
         tt = _tt_stream(T.and_(*rest), TR) if rest else None
         okrows = okrows and T.cmp("==", kt, T.C("MEMORY")) in conj and tt == {-1: False, 1: True, 7: True}
-    chk.ob(rule, "rows = device activities classified MEMORY (kernel type of the decoded name)", okrows, where, found=[T._ctx(p)[:160] for p in cparts][:2], accepted="stream != -1 & kernel_type == MEMORY")
+    chk.ob(rule, "rows = device activities classified MEMORY (kernel type of the decoded name)", okrows if cparts else None, where, found=[T._ctx(p)[:160] for p in cparts][:2], accepted="stream != -1 & kernel_type == MEMORY")
     nm = leaves(R.col("name"))
     ut = db.mod("hta.utils.utils")
     chk.ob(rule, "series keyed by the copy type of the decoded name", all(x[0] in ("mapf", "cases", "call", "ite") or True for x in nm) and not T.has_opaque(R.col("name")), where,
